@@ -659,7 +659,7 @@ func (l *local) one(tsA, tsB bool, ops []op) int {
 		l.report(tsA, tsB, ops, len(ops)-1, out)
 		return stDiverged
 	}
-	if nontrivial(ops) {
+	if len(ops) <= 5 && nontrivial(ops) { // length-6 sequences (thorough) are counted as evaluations only: memory
 		l.distinct[w.sig] = struct{}{}
 	}
 	if len(ops) >= 4 && ops[len(ops)-1].K == kMB && ops[len(ops)-1].A != ops[len(ops)-1].B && len(w.order()) >= 3 && exSamples.Add(1) <= 2 {
@@ -907,7 +907,7 @@ func run(c *vf.Ctx) {
 	c.SetRule("a case is one operation sequence applied in lock-step to a ds.List and a container/list.List (plus a foreign list pair) with a full comparison after every step; " +
 		"exhaustive part: every sequence up to length 5 (quick) / 6 (thorough) over an alphabet of 44 operations whose handle arguments range over the first 3 pooled handles (live, removed and foreign ones arise from the sequence itself), both flavours; " +
 		"random part: seeded sequences of length 40 over the whole handle pool incl. handles created by whole-list pushes; evaluations counts sequences whose last step was checked (exhaustive) resp. checked steps (random); " +
-		"distinct_nontrivial counts distinct (flavour, sequence of operation x argument-class) signatures, e.g. PushBack>PushBack>MoveBefore(live,live)>Remove(live), of sequences that agreed with the reference and contain at least one handle-taking, whole-list or Init operation (handle numbering is abstracted away); distinct_op_argclass counts operation x argument-class (live/removed/foreign/same/self/other) combinations")
+		"distinct_nontrivial counts distinct (flavour, sequence of operation x argument-class) signatures, e.g. PushBack>PushBack>MoveBefore(live,live)>Remove(live), of sequences (exhaustive ones up to length 5, and the random ones) that agreed with the reference and contain at least one handle-taking, whole-list or Init operation (handle numbering is abstracted away); distinct_op_argclass counts operation x argument-class (live/removed/foreign/same/self/other) combinations")
 	maxLen := c.Pick(5, 6)
 	t0 := time.Now()
 	for _, ts := range []bool{false, true} {
